@@ -707,8 +707,10 @@ pub fn run(run: &mut Run) -> Result<(), String> {
                     })
                     .collect();
                 plan.raws.push((Box::new(RightsProduct { corpus: rc }), b(0, 0)));
+                plan.raws.push((Box::new(Material), b(0, 0)));
                 plan.raws.push((Box::new(Edit { corpus, two_edits_for_first: 0 }), b(0, 0)));
             } else {
+                plan.raws.push((Box::new(Material), b(0, 0)));
                 let rc: Vec<Pos> = corpus.iter().step_by(9).cloned().collect();
                 plan.raws.push((Box::new(RightsProduct { corpus: rc }), b(0, 0)));
                 plan.raws.push((Box::new(ThreeMen { bk: None }), b(0, 0)));
@@ -735,7 +737,9 @@ pub fn run(run: &mut Run) -> Result<(), String> {
                 plan.dfrc = Some((0..960, 16, b(0, 0)));
                 plan.lines = Some(b(2, 1));
                 plan.walk = Some((240, 40, 2, 7, b(1, 1)));
+                plan.raws.push((Box::new(Material), b(0, 0)));
                 if prop == "C10" || prop == "C07" {
+                    plan.raws.push((Box::new(PromoUniverse { sliders: vec![Kind::R] }), b(1, 0)));
                     plan.raws.push((Box::new(EpUniverse::before_push(q)), b(1, 0)));
                     plan.raws.push((Box::new(TwoLines { enemy_kings: vec![35] }), b(if prop == "C10" { 1 } else { 0 }, 0)));
                     plan.raws.push((Box::new(EpUniverse::own_sliders()), b(1, 0)));
@@ -760,6 +764,8 @@ pub fn run(run: &mut Run) -> Result<(), String> {
                 plan.dfrc = Some((0..960, 1, b(0, 0)));
                 plan.lines = Some(b(3, 2));
                 plan.walk = Some((960, 60, 1, 7, b(1, 1)));
+                plan.raws.push((Box::new(Material), b(1, 0)));
+                plan.raws.push((Box::new(PromoUniverse { sliders: vec![Kind::R, Kind::B, Kind::Q] }), b(1, 0)));
                 plan.raws.push((Box::new(EpStale), b(0, 0)));
                 plan.raws.push((Box::new(EpFile), b(0, 0)));
                 plan.raws.push((Box::new(EpUniverse::before_push(q)), b(1, 0)));
